@@ -310,6 +310,15 @@ impl<T: Qcow2IoOps> Qcow2Dev<T> {
             return Err(e);
         }
 
+        // these clusters may be pointed to by one top table block which is
+        // written later without any of their slices being dirty then (the
+        // slices flushed here may be victims of one cache eviction), so their
+        // zeroing has to be synced before that, see flush_meta_generic()
+        if !cluster_map.is_empty() {
+            self.zeroed_clusters
+                .fetch_add(cluster_map.len() as u64, Ordering::Relaxed);
+        }
+
         {
             let mut cls_map = self.new_cluster.write().await;
 
